@@ -75,6 +75,17 @@ STRENGTHENED = {
     "H_stack-B": "missed: the number of results was never judged -> documented result counts of the four data-dependent elements (÷ y ₅ Ḋ) over 10 values",
     "H_io-B": "missed: function bodies popped at most as many values as parameters -> bodies that pop more (the arguments are then read cyclically, in a defined order), arities up to 3",
     "H_io-C": "missed: no modifier around the input element -> `c ß?` (conditional execute) as an operation of the read histories",
+    # seventh wave (again with the list of used ideas; asked for code paths the earlier ideas had not touched)
+    "I_gen-A": "missed: every key was an element -> the no-op tokens (line break, space, a lone digraph prefix) as the only content of a branch, in every non-operand position",
+    "I_gen-B": "missed: the adversarial alphabet was inside the code page -> é (no digit value in any compression alphabet); and corrected: a negative number constant (`»é»` lowers to -1) is a constant, not a structural difference",
+    "I_lazy-A": "missed: slices had non-negative starts and stop -1 only -> s[0:-3], s[:-4], s[-2:], s[-5:2]; the new observations exposed a genuine defect (negative slice start), repaired in 536132a",
+    "I_num-A": "missed: every divisor was a leaf or a two-leaf result -> all five tree shapes with three operators over 1, 10^6, 999983 (computed divisors down to 10^-12)",
+    "I_online-A": "missed: no program failed while or after printing -> 43 programs that print and then fail in seven different ways; the error record must hold the traceback",
+    "I_online-B": "missed: as I_online-A -> the text printed before the failure must be complete in the output record",
+    "I_stack-A": "missed because my own entitlement for `&` was one too high (the register is one of the element's arguments), so the extra pop hit a spare argument -> corrected to arity-1",
+    "I_struct1-A": "missed: if statements had one or two branches -> else-if chains with 3, 4 and 5 branches under every combination of conditions",
+    "I_struct1-B": "missed by C01 (C11 now catches it too): function bodies never popped more than their parameters -> counted / named / mixed parameter lists with bodies that pop more",
+    "I_struct2-C": "missed: for loops in chains and statements were unnamed -> a named for loop as chain element and eight statements with X / x / n inside named loops",
     "C14-C": "missed: the item at index n was read from the cache after has_ind -> a third way of taking the prefix: real indexing result[n]",
 }
 
